@@ -64,8 +64,9 @@ Definition is_zero (x : num) : bool := n_eqb x (NI 0).
 
 (* x ** n for a non-negative integer n, by repeated multiplication (exact for integers; for reals
    exact whenever every intermediate product is representable) *)
+Definition n_one_like (x : num) : num := match x with NI _ => NI 1 | NR _ => NR (z2f 1) end.
 Fixpoint n_pow_nat (x : num) (n : nat) : num :=
-  match n with O => NI 1 | S O => x | S k => n_mul (n_pow_nat x k) x end.
+  match n with O => n_one_like x | S O => x | S k => n_mul (n_pow_nat x k) x end.
 Definition is_integral (x : num) : bool :=
   match x with
   | NI _ => true
@@ -89,7 +90,8 @@ Inductive val :=
 | V2 (rows : list (list num))       (* rank-2 numeric ndarray *)
 | VUndef                            (* :undefined *)
 | VStr (s : list Z)                 (* a Python str (string, character, symbol) *)
-| VObj                              (* any other ndarray: object dtype, rank >= 3 — admitted by the compiler, not modelled *)
+| VObj                              (* an object-dtype ndarray: nested or mixed list — not modelled *)
+| VHi                               (* any other numeric ndarray (rank >= 3, a zero dimension) — not modelled *)
 | VOther.                           (* anything else: dictionary, function, ... *)
 
 Inductive res (A : Type) := Ok (a : A) | Err | Unm.   (* Err = a Python exception; Unm = outside this model *)
@@ -215,6 +217,7 @@ Record tables := {
   arith_ops : list string; cmp_ops : list string; redscan_ops : list string;
   t_bin : list (string * string); t_cmp : list (string * string);
   t_red : list (string * string); t_scan : list (string * string);
+  adm_obj : bool;       (* does _ast_to_ir admit object-dtype arrays? *)
   f_bin : list tpart; f_cmp : list tpart; f_neg : list tpart; f_red : list tpart; f_scan : list tpart
 }.
 
@@ -225,8 +228,8 @@ Fixpoint assoc {A} (s : string) (l : list (string * A)) : option A :=
 Definition env := string -> option val.
 
 (* what `type(val) is int / float / isinstance(val, np.ndarray)` accepts *)
-Definition admit_compile (v : val) : bool :=
-  match v with VS false _ | V1 _ | V2 _ | VObj => true | _ => false end.
+Definition admit_compile (T : tables) (v : val) : bool :=
+  match v with VS false _ | V1 _ | V2 _ | VHi => true | VObj => adm_obj T | _ => false end.
 
 Fixpoint find_idx (s : string) (vr : list string) : option nat :=
   match vr with
@@ -244,7 +247,7 @@ Fixpoint ast_to_ir (T : tables) (rho : env) (e : expr) (vr : list string) : opti
       match rho s with
       | None => None
       | Some v =>
-          if admit_compile v then
+          if admit_compile T v then
             match find_idx s vr with
             | Some k => Some (IVar (vname k), vr)
             | None => Some (IVar (vname (List.length vr)), vr ++ [s])
@@ -454,7 +457,7 @@ Definition admit_call (v : val) : bool :=
   | VS false _ => true
   | V1 l => negb (Nat.eqb (List.length l) 0)
   | V2 r => negb (Nat.eqb (List.length (List.concat r)) 0)
-  | VObj => true
+  | VHi => true
   | _ => false
   end.
 
@@ -483,10 +486,15 @@ Definition run_compiled (T : tables) (guard : bool) (c : compiled) (rho : env) :
 (* ------------------------------------------------------------------ the tree-walking interpreter *)
 (* a ufunc called by a verb: Python scalars become NumPy scalars *)
 Definition isnum (v : val) : bool := match v with VS _ _ | V1 _ | V2 _ => true | _ => false end.
-Definition isobj (v : val) : bool := match v with VObj => true | _ => false end.
+Definition isarr (v : val) : bool := match v with V1 _ | V2 _ | VObj | VHi => true | _ => false end.
+Definition isempty (v : val) : bool := match v with V1 [] => true | _ => false end.
+Definition isstr (v : val) : bool := match v with VStr _ => true | _ => false end.
+Definition isobj (v : val) : bool := match v with VObj | VHi => true | _ => false end.
 Definition kg_arith (f : num -> num -> num) (a b : val) : res val :=
   if isnum a && isnum b then np_lift2 f a b
   else if isobj a || isobj b then Unm
+  else if isstr a && isstr b then Unm
+  else if isempty a || isempty b then Unm                  (* a ufunc over no elements calls nothing *)                      (* NumPy 2 has string ufunc loops: not modelled *)
   else Err.                                                (* UFuncTypeError / TypeError *)
 
 Definition isscalar (v : val) : bool := match v with VS _ _ => true | _ => false end.
@@ -514,9 +522,9 @@ Definition kg_dyad (op : string) (a b : val) : res val :=
   if String.eqb op "-" then kg_arith n_sub a b else
   if String.eqb op "*" then kg_arith n_mul a b else
   if String.eqb op "%" then
-    match a, b with
-    | VS _ _, VS _ y => if is_zero y then Ok VUndef else kg_arith n_div a b
-    | _, _ => kg_arith n_div a b
+    match b with                       (* not is_list(a), not is_list(b), b a number equal to 0 *)
+    | VS _ y => if is_zero y && negb (isarr a) then Ok VUndef else kg_arith n_div a b
+    | _ => kg_arith n_div a b
     end else
   if String.eqb op "=" then
     (if isnum a && isnum b then np_lift2 n_eq a b else Unm) else
@@ -525,7 +533,7 @@ Definition kg_dyad (op : string) (a b : val) : res val :=
   if String.eqb op "^" then kg_power a b else Unm.
 
 Definition kg_negate (a : val) : res val :=
-  match a with VS _ _ | V1 _ | V2 _ => np_lift1 n_neg a | VObj => Unm | _ => Err end.
+  match a with VS _ _ | V1 _ | V2 _ => np_lift1 n_neg a | VObj | VHi => Unm | _ => Err end.
 
 Definition red_fn (op : string) : option (num -> num -> num) :=
   if String.eqb op "+" then Some n_add else if String.eqb op "*" then Some n_mul else
@@ -552,8 +560,8 @@ Definition kg_scan (op : string) (a : val) : res val :=
   | None => Unm
   | Some f =>
       match a with
-      | VS _ _ | VUndef | VOther => Ok a
-      | V1 [] => Ok a
+      | V1 [] => Ok a                                       (* is_empty *)
+      | VS _ x => Ok (V1 [x])                               (* an atom is returned in a list: kg_asarray([a]) *)
       | V1 l => Ok (V1 (scan1 f l))
       | V2 r => if rect r then Ok (V2 (scan_rows f r)) else Unm
       | _ => Unm
